@@ -28,14 +28,16 @@ git -C /repo worktree remove --force "$S"
 echo "suite with change (empty = all ok): [$SUITE]"
 echo "demo with change: $DEMO_WITH" | tail -2
 echo "demo without change: $DEMO_WITHOUT" | tail -1
-# run the checks against /repo with the patch applied, then undo
-git -C /repo apply "$OUT/patch.diff" || { echo "cannot apply to /repo"; exit 1; }
+# run the checks against a scratch worktree of /repo HEAD with the patch applied (/repo itself stays untouched)
+S2=$(mktemp -d /tmp/seedrun.XXXXXX); rmdir "$S2"
+git -C /repo worktree add -q --detach "$S2" HEAD
+( cd "$S2" && git apply "$OUT/patch.diff" ) || { echo "cannot apply"; git -C /repo worktree remove --force "$S2"; exit 1; }
 CAUGHT=""
 for id in $CHECKS; do
-  mkdir -p /tmp/seedverif.$$; cp /verif/known_findings.json /tmp/seedverif.$$/; R=$(/verif/bin/verifcheck check $id --verif /tmp/seedverif.$$ 2>&1 | grep -v '^KNOWN' )
-  if echo "$R" | grep -q '^VIOLATION'; then CAUGHT="$CAUGHT $id"; echo "== $id reports:"; echo "$R" | grep -v '^VIOLATION\|witness' | head -3 | cut -c1-240; fi
+  mkdir -p /tmp/seedverif.$$; cp /verif/known_findings.json /tmp/seedverif.$$/; R=$(/verif/bin/verifcheck check $id --repo "$S2" --verif /tmp/seedverif.$$ 2>&1 | grep -v '^KNOWN' )
+  if echo "$R" | grep -q '^VIOLATION\|^CHECK-BROKEN'; then CAUGHT="$CAUGHT $id"; echo "== $id reports:"; echo "$R" | grep -v '^VIOLATION\|witness' | head -3 | cut -c1-240; fi
 done
-git -C /repo checkout -- .
+git -C /repo worktree remove --force "$S2"
 rm -rf /tmp/seedverif.$$
 python3 - "$OUT" "$PROP" "$NEEDS" "$SUITE" "$DEMO_WITH" "$DEMO_WITHOUT" "$CAUGHT" "$DEMO" "$CHECKS" <<'EOF'
 import json,sys
@@ -43,7 +45,7 @@ out,prop,needs,suite,dw,dwo,caught,demo,checks=sys.argv[1:10]
 meta={"property":prop,"needs_to_manifest":needs,"demo_test_path":demo,
  "confirmed":{"suite_with_change":"all packages ok" if not suite.strip() else suite,
    "demo_with_change":"FAIL" if "FAIL" in dw else dw, "demo_without_change":"ok" if dwo.strip().startswith("ok") else dwo},
- "ran":["git apply patch.diff in a scratch worktree of /repo HEAD; go build ./... && go test -vet=off -count=1 ./...","go test ./<pkg>/ -run Seeded with and without the patch","verifcheck check <id> on /repo with the patch applied (git apply, then git checkout -- .)"],
+ "ran":["git apply patch.diff in a scratch worktree of /repo HEAD; go build ./... && go test -vet=off -count=1 ./...","go test ./<pkg>/ -run Seeded with and without the patch","verifcheck check <id> --repo <scratch worktree of /repo HEAD with the patch applied>"],
  "checks_run":checks.split(),"caught_by":caught.split()}
 json.dump(meta,open(out+"/meta.json","w"),indent=1)
 print("caught_by:",caught)
